@@ -104,6 +104,9 @@ fn lengths_for(size: usize, rng: &mut impl RngCore) -> Vec<(usize, &'static str)
         (size, "size"),
         (size + 1, "size+1"),
         (2 * size, "2*size"),
+        (2 * size + 1, "2*size+1"),
+        (3 * size + 1, "3*size+1"),
+        (4 * size, "4*size"),
         ((rng.next_u32() as usize) % (size + 1), "random<=size"),
         (size + 1 + (rng.next_u32() as usize) % (size + 1), "random>size"),
     ];
@@ -144,8 +147,8 @@ pub fn run(tier: Tier, seed: u64) -> i32 {
                 continue;
             }
             if log > 12 && len > size {
-                // keep the big cases affordable: one longer length only
-                if lname != "size+1" {
+                // keep the big cases affordable: two longer lengths only
+                if lname != "size+1" && lname != "3*size+1" {
                     continue;
                 }
             }
@@ -242,7 +245,7 @@ pub fn run(tier: Tier, seed: u64) -> i32 {
 
     super::c18::sanitizer_summary(&ev, "C19");
     ev.floor("domain sizes", ev.set_len("sizes") as u64, (max_log + 1) as u64);
-    ev.floor("length classes", ev.set_len("length_classes") as u64, 7);
+    ev.floor("length classes", ev.set_len("length_classes") as u64, 10);
     ev.floor("pool sizes", ev.set_len("pools") as u64, tier.pick(8, 17));
     ev.floor("poly ops", ev.bucket_get("poly.cases"), 200);
     ev.floor("closed form in-domain points", ev.bucket_get("closed.in_domain"), 20);
